@@ -12,6 +12,7 @@ From KV Require Import Lib.Bytes Model.Headers Model.Parser Model.Body Model.Ser
    set of responses computed from that head and body, and the server's position afterwards is
    exactly the first byte after the body - for every handler behaviour and every segmentation *)
 Theorem C07_one_request : forall a N ka reqsegs later r raw,
+  Forall (fun g => g <> []) reqsegs ->            (* a TCP read never returns an empty segment *)
   parse_request (firstn N (concat reqsegs)) = Ok r ->
   raw = raw_fields (firstn N (concat reqsegs)) ->
   Forall (fun g => g <> []) later ->
@@ -22,14 +23,61 @@ Theorem C07_one_request : forall a N ka reqsegs later r raw,
   let '(resps, keep, _) := spec_one a r raw (skipn (q_offset r) (concat reqsegs)) in
   o_resps o = resps /\ (o_ok o = true -> o_keep o = (keep && ka && negb (existsb rs_close resps))) /\
   (o_ok o = true -> o_keep o = true -> o_rest o = later).
-Proof. exact one_request_boundary. Qed.
+Proof. exact one_request_boundary_nonempty. Qed.
 Print Assumptions C07_one_request.
 
 (* the whole connection: every lock-step history gives exactly the sequential transcript *)
 Theorem C07_transcript : forall a N segs,
+  0 < N ->                                         (* a head limit of zero bytes answers 431 before reading anything *)
   lockstep a N segs = true -> known_F21 a N segs = false ->
   snd (spec_conn a N (concat segs)) <> EUnspec ->
   c_resps (serve_conn a N segs) = fst (spec_conn a N (concat segs)) /\
   (c_waiting (serve_conn a N segs) = true <-> snd (spec_conn a N (concat segs)) = EWaiting).
-Proof. exact conn_transcript. Qed.
+Proof. exact conn_transcript_pos. Qed.
 Print Assumptions C07_transcript.
+
+(* ---- the two recorded findings, as witnesses on the faithful model (see known_findings.json) ---- *)
+Definition hold_app : app :=
+  {| behaviour_of := fun _ => BHold; hook_of := fun _ => HProceed; describe := fun _ b => b |}.
+Definition none_app : app :=
+  {| behaviour_of := fun _ => BNone 200; hook_of := fun _ => HProceed; describe := fun _ b => b |}.
+Definition crlf2 : bytes := [x0d; x0a; x0d; x0a].
+Definition get_req : bytes := bs "GET /next HTTP/1.1" ++ crlf2.
+
+(* F20c: the rest of a chunked body and the next request arrive in one segment after the handler
+   has already answered: the model (like the code) loses the next request *)
+Definition f20c_segs : list bytes :=
+  [ bs "POST /hold HTTP/1.1" ++ [x0d; x0a] ++ bs "Transfer-Encoding: chunked" ++ crlf2;
+    bs "5" ++ [x0d; x0a] ++ bs "hello" ++ [x0d; x0a] ++ bs "0" ++ crlf2 ++ get_req ].
+Example C07_refuted_F20c :
+  known_F20c hold_app 4096 f20c_segs = true /\ lockstep hold_app 4096 f20c_segs = false /\
+  length (c_resps (serve_conn hold_app 4096 f20c_segs)) = 1 /\
+  length (fst (spec_conn hold_app 4096 (concat f20c_segs))) = 2.
+Proof. vm_compute. repeat split. Qed.
+(* the same history with a fixed-length body is handled correctly (Read::take keeps the read-ahead inside the body) *)
+Definition fixed_segs : list bytes :=
+  [ bs "POST /hold HTTP/1.1" ++ [x0d; x0a] ++ bs "Content-Length: 5" ++ crlf2; bs "hello" ++ get_req ].
+Example C07_fixed_straddle_ok :
+  c_resps (serve_conn hold_app 4096 fixed_segs) = fst (spec_conn hold_app 4096 (concat fixed_segs)) /\
+  length (c_resps (serve_conn hold_app 4096 fixed_segs)) = 2.
+Proof. vm_compute. split; reflexivity. Qed.
+
+(* F21: a malformed body that the handler ignores: the spec closes, the model (like the code) keeps going *)
+Definition f21_segs : list bytes :=
+  [ bs "POST /x HTTP/1.1" ++ [x0d; x0a] ++ bs "Transfer-Encoding: chunked" ++ crlf2 ++ bs "zz" ++ [x0d; x0a] ++ bs "hello" ++ [x0d; x0a] ++ bs "0" ++ crlf2;
+    get_req ].
+Example C07_refuted_F21 :
+  known_F21 none_app 4096 f21_segs = true /\
+  length (fst (spec_conn none_app 4096 (concat f21_segs))) = 1 /\ snd (spec_conn none_app 4096 (concat f21_segs)) = EClosed /\
+  length (c_resps (serve_conn none_app 4096 f21_segs)) = 2.
+Proof. vm_compute. repeat split. Qed.
+
+(* non-vacuity of the theorem's hypotheses: a lock-step history of three requests *)
+Definition ok_segs : list bytes :=
+  [ bs "POST /a HTTP/1.1" ++ [x0d; x0a] ++ bs "Content-Length: 5" ++ crlf2 ++ bs "he"; bs "llo";
+    bs "POST /b HTTP/1.1" ++ [x0d; x0a] ++ bs "Transfer-Encoding: chunked" ++ crlf2; bs "5" ++ [x0d; x0a] ++ bs "hel"; bs "lo" ++ [x0d; x0a] ++ bs "0" ++ crlf2;
+    get_req ].
+Example C07_ex_lockstep :
+  lockstep none_app 4096 ok_segs = true /\ known_F21 none_app 4096 ok_segs = false /\
+  length (c_resps (serve_conn none_app 4096 ok_segs)) = 3.
+Proof. vm_compute. repeat split. Qed.
